@@ -30,6 +30,7 @@ def run(ctx):
     a_gate(ctx, flows)
     _railrules.runner_order_once(ctx, "C02.a.order", flows, "output")
     b_flag(ctx, flows)
+    c_checked_text_is_whole(ctx)
     scope, nm = _railrules.reject_stop(ctx, "C02.c.reject-stop", ("output",))
     ctx.floor("C02.c.reject-stop", "nemoguardrails/library", "rejection markers in output rails", nm, 30)
     d_v2(ctx)
@@ -352,3 +353,38 @@ def d_v2(ctx):
         gu = [re.sub(r"\s+", " ", s.text) for s in say.walk() if utter(s)]
         ctx.check("C02.d.sibling", say.file, say.name, "utterance vs core.co", cu == gu,
                   "override utters exactly what the core flow utters (%s)" % gu if cu == gu else "override utters %s, core utters %s" % (gu, cu), line=say.line)
+
+
+def c_checked_text_is_whole(ctx):
+    """A rail decides about the message that is then uttered.  The library rail actions read the text from the context (`bot_message` / `user_message`);
+    the variable that carries it into the check must not be shortened on the way (a slice re-assigned to it): what is checked would no longer be what is sent."""
+    n = 0
+    for rel in ctx.tree.glob("nemoguardrails/library", ("actions.py",)):
+        t = ctx.tree.ast(rel)
+        for fn in functions(t):
+            texts = {}
+            for a in walk_no_nested(fn):
+                if isinstance(a, ast.Assign) and isinstance(a.targets[0], ast.Name) and isinstance(a.value, ast.Call) and src(a.value.func) == "context.get" and a.value.args \
+                        and isinstance(a.value.args[0], ast.Constant) and a.value.args[0].value in ("bot_message", "user_message"):
+                    texts[a.targets[0].id] = a
+            if not texts:
+                continue
+            n += len(texts)
+            for var, origin in texts.items():
+                cuts = []
+                for a in walk_no_nested(fn):
+                    if a is origin or not isinstance(a, (ast.Assign, ast.AugAssign)):
+                        continue
+                    tg = a.targets[0] if isinstance(a, ast.Assign) else a.target
+                    if isinstance(tg, ast.Name) and tg.id == var:
+                        for x in ast.walk(a.value):
+                            if isinstance(x, ast.Subscript) and isinstance(x.slice, ast.Slice) and any(isinstance(y, ast.Name) and y.id == var for y in ast.walk(x.value)):
+                                cuts.append(a)
+                            if isinstance(x, ast.Call) and isinstance(x.func, ast.Attribute) and x.func.attr in ("split", "partition", "splitlines") and any(
+                                    isinstance(y, ast.Name) and y.id == var for y in ast.walk(x.func.value)):
+                                cuts.append(a)
+                ctx.check("C02.c.checked-text-whole", rel, qualname(fn), "%s = context.get(%r)" % (var, origin.value.args[0].value), not cuts,
+                          "the text read from the context reaches the check unshortened" if not cuts else
+                          "`%s` (line %d) replaces the text under check by a part of it: content after the cut is uttered but was never checked" % (first_line(cuts[0], 60), cuts[0].lineno),
+                          line=(cuts[0].lineno if cuts else origin.lineno))
+    ctx.floor("C02.c.checked-text-whole", "nemoguardrails/library", "rail actions reading the message text from the context", n, 10)
